@@ -39,12 +39,16 @@ type Case struct {
 	Route      string     `json:"route"`
 	GoMaxProcs int        `json:"gomaxprocs"`
 	Rounds     int        `json:"rounds"`
+	Mw         int        `json:"mw"`     // route "mux": number of middlewares in front of the handler (each sets a header before $next and writes to the body after it; a body write before $next would commit the response and make the handler's status/header inert, see C13)
+	Group      bool       `json:"group"`  // route "mux": register the route (and the middlewares) in a $server->group("/g")
+	Warmup     bool       `json:"warmup"` // serve one request alone to completion before the interleaving
 	Yields     bool       `json:"yields"` // park requests at the verif yield point inside the $_GET lazy fill too
 }
 
 type Resp struct {
 	Status int               `json:"status"`
 	XId    string            `json:"xid"`
+	Mw     []string          `json:"mw,omitempty"` // X-Mw<j> header of each middleware
 	Fields map[string]string `json:"fields"`
 	Body   string            `json:"body,omitempty"`
 	Panic  string            `json:"panic,omitempty"`
@@ -127,9 +131,11 @@ func yieldFn(point string) {
 	<-g.release
 }
 
+var routePath = "/h"
+
 func mkRequest(i int) *http.Request {
 	body := strings.NewReader(fmt.Sprintf("pid=%d", i))
-	req := httptest.NewRequest("POST", fmt.Sprintf("/h?id=%d", i), body)
+	req := httptest.NewRequest("POST", fmt.Sprintf("%s?id=%d", routePath, i), body)
 	req.Header.Set("Content-Type", "application/x-www-form-urlencoded")
 	req.Header.Set("X-Tag", fmt.Sprint(i))
 	req.AddCookie(&http.Cookie{Name: "sid", Value: fmt.Sprint(i)})
@@ -156,7 +162,14 @@ func mkHandler(c *Case, withGates bool) (http.Handler, string) {
 	}
 	src := script(c.Segs, withGates)
 	if c.Route == "mux" {
-		src += "$server = new Net\\Http\\Server(\"127.0.0.1\", 0);\n$server->post(\"/h\", function($r, $w) { h($r, $w); });\n"
+		src += "$server = new Net\\Http\\Server(\"127.0.0.1\", 0);\n$rt = $server;\n"
+		if c.Group {
+			src += "$rt = $server->group(\"/g\");\n"
+		}
+		for j := 0; j < c.Mw; j++ {
+			src += fmt.Sprintf("$rt->middleware(function($r, $w, $next) { $mid = $r->input(\"id\"); $w->header(\"X-Mw%d\", $mid); $next($r, $w); $w->write(\"m%db=\" . $mid . \";\"); });\n", j, j)
+		}
+		src += "$rt->post(\"/h\", function($r, $w) { h($r, $w); });\n"
 	}
 	prog, acl := p.ParseString(src, "c11.zy")
 	if acl != nil {
@@ -213,7 +226,15 @@ func serve(h http.Handler, i int) (r Resp) {
 	rec := httptest.NewRecorder()
 	h.ServeHTTP(rec, mkRequest(i))
 	res := rec.Result()
-	return Resp{Status: res.StatusCode, XId: res.Header.Get("X-Id"), Fields: parseBody(rec.Body.String())}
+	var mw []string
+	for j := 0; j < 4; j++ {
+		if v, ok := res.Header[fmt.Sprintf("X-Mw%d", j)]; ok && len(v) > 0 {
+			mw = append(mw, v[0])
+		} else {
+			break
+		}
+	}
+	return Resp{Status: res.StatusCode, XId: res.Header.Get("X-Id"), Mw: mw, Fields: parseBody(rec.Body.String())}
 }
 
 func runGated() {
@@ -232,6 +253,10 @@ func runGated() {
 			out.Encode(map[string]any{"err": e})
 			return
 		}
+		routePath = "/h"
+		if c.Route == "mux" && c.Group {
+			routePath = "/g/h"
+		}
 		if c.Yields {
 			node.VerifYieldHook = yieldFn
 		} else {
@@ -243,6 +268,12 @@ func runGated() {
 			gates[i] = &gateState{arrive: make(chan int, 1), release: make(chan struct{})}
 		}
 		gmu.Unlock()
+		var warm *Resp
+		if c.Warmup {
+			// one request served alone first (no gate is armed for id 99: verif_gate returns at once)
+			w := serve(h, 99)
+			warm = &w
+		}
 		resps := make([]Resp, c.NReq)
 		start := make([]chan struct{}, c.NReq)
 		done := make([]chan struct{}, c.NReq)
@@ -297,7 +328,7 @@ func runGated() {
 			}
 		}
 		node.VerifYieldHook = nil
-		out.Encode(map[string]any{"resps": resps, "order": order})
+		out.Encode(map[string]any{"resps": resps, "order": order, "warmup": warm})
 	})
 }
 
@@ -317,6 +348,13 @@ func runChild() {
 		if e != "" {
 			out.Encode(map[string]any{"err": e})
 			continue
+		}
+		routePath = "/h"
+		if c.Route == "mux" && c.Group {
+			routePath = "/g/h"
+		}
+		if c.Warmup {
+			serve(h, 99)
 		}
 		var all [][]Resp
 		for r := 0; r < c.Rounds; r++ {
